@@ -96,6 +96,28 @@ _ADDED = {
     'C19': '; complete tree of 3 sends x two receive() iterations alive at once on one reader, stepped packet by packet',
     'C20': '; texts with line boundaries of every kind (LF, CR, CRLF, U+2028, VT, NEL); error rendering under every colour policy',
 }
+# parts added in round 5 (DESIGN.md section 9.2c)
+_ADDED5 = {
+    'C01': '; text forms against their documented expansions (optionals around left/right/positive joins, chains of based rules, includes of based rules, constants that fail); one name bound three or more times in scopes that are given up',
+    'C02': '; code-generator cases (names of options that are not sequences, 54 repetitions in one rule, nested choices, rule parameters of every literal kind, control and line-boundary characters in patterns and directives, colliding rule names, list-valued actions)',
+    'C03': '; nullable constructs containing a call before the recursive call; recursion through rule includes and based rules',
+    'C04': '; an error-class tie at the furthest position (recorded finding)',
+    'C05': '; optional around a closure/optional/join that contains a cut; joins whose separator can match nothing',
+    'C06': '; action values equal across types (True/1/1.0) compared by repr; one generated parser object with another semantics argument each parse',
+    'C07': '; 25 element names that are attributes or methods of Node',
+    'C08': '; (d) depth battery: 11 bracketing forms of grammar text nested 1-48 deep, 4 recursive grammars on input nested 1-500 deep, 5 iterative grammars on 1 500 elements; @name rules with list/dict/number values',
+    'C09': '; skip-to over comments whose text matches the target',
+    'C11': '; the @name rule written as a based rule, a rule include, a rule call',
+    'C13': '; stress lexemes after a token and after a rule call, patterns written with escaped slashes; ANTLR token rules used before their definition',
+    'C14': '; the <Name>Parser class of the emitted model module',
+    'C15': '; 1 260 (repetition/group, postfix, binding prefix, element) quadruples written without blanks; keyword lists followed by every rule definition form',
+    'C16': '; 11 grammars with rule includes and based rules labelled by hand (detection, flags, run-time clause)',
+    'C17': '; every forbidden attribute and impure builtin under its NFKC-equivalent spellings (full-width low line and letters)',
+    'C18': '; the thread-pool route (all tasks submitted at once) for <= 3 (4) payloads; TypeError as a fifth captured form; absolute oracle (the function runs once per payload and the result carries its outcome)',
+    'C20': '; error reports for failures on lines 1-15 and 98-105',
+}
+for _k, _v in _ADDED5.items():
+    _ADDED[_k] = _ADDED.get(_k, '') + _v
 for _k, _v in _ADDED.items():
     if _k in CHECKS:
         _c = CHECKS[_k]
